@@ -202,6 +202,31 @@ pub fn main(args: &[String]) -> i32 {
                 }
             }
         }
+        // ... and as taiko / catch: the *_for_mode strains must explain the *_for_mode ratings (and so equal the strains of the
+        // explicitly converted map: hit windows and the like are those of the CONVERTED map)
+        if mode == "osu" && k % 2 == 0 {
+            rich += 1;
+            let a = guarded(|| d.calculate_for_mode::<rosu_pp::taiko::Taiko>(&native));
+            let st = guarded(|| d.strains_for_mode::<rosu_pp::taiko::Taiko>(&native));
+            if let (Ok(Ok(a)), Ok(Ok(st))) = (&a, &st) {
+                const D: f64 = 0.084375;
+                for (name, peaks, mult, got) in [("rhythm", &st.rhythm, 0.65 * D, a.rhythm), ("reading", &st.reading, 0.100 * D, a.reading),
+                                                 ("color", &st.color, 0.375 * D, a.color), ("stamina", &st.stamina, 0.445 * D, a.stamina)] {
+                    let want = weighted(peaks, 0.9) * mult;
+                    if !rel_close(want, got, 1e-9) {
+                        mism.push(json!({"what": "taiko_rating_from_peaks_for_mode", "label": format!("rich {k} osu source as taiko n={nobj} cfg {:?} [{name}]", cfg), "expected": want, "observed": got, "osu_text": text}));
+                    }
+                }
+            }
+            let ca = guarded(|| d.calculate_for_mode::<rosu_pp::catch::Catch>(&native));
+            let cst = guarded(|| d.strains_for_mode::<rosu_pp::catch::Catch>(&native));
+            if let (Ok(Ok(a)), Ok(Ok(st))) = (&ca, &cst) {
+                let want = weighted(&st.movement, 0.94).sqrt() * 4.59;
+                if !rel_close(want, a.stars, 1e-12) {
+                    mism.push(json!({"what": "catch_stars_from_peaks_for_mode", "label": format!("rich {k} osu source as catch n={nobj}"), "expected": want, "observed": a.stars, "osu_text": text}));
+                }
+            }
+        }
         let targets: Vec<&str> = if mode == "osu" && k % 8 == 0 { vec!["osu", "taiko", "catch", "mania"] } else { vec![mode] };
         for t in targets {
             let gm = match t {
